@@ -74,6 +74,17 @@ Proof.
 Qed.
 Print Assumptions C01_wave_exact.
 
+(* the whole step_fourier of the Wave stepper (forward transform, order-0 integrator, inverse transform, mean-mode correction) is
+   re-translated from the source for one Fourier mode on every run (harness/translate/wave.py -> Gen/WaveGen.v) and IS wave_mode with
+   s = 1 / sqrt2, for any value sqrt2 of jnp.sqrt(2) (C01_wave_exact needs 2 s^2 = 1 only); its eigenvalue pair is (i c rho, -i c rho),
+   whose exponentials are the Ep, Em of the order-0 integrator *)
+From EXV Require Import Gen.WaveGen.
+Theorem C01_code_wave_step_is_model : forall (F : FieldT) (ii sqrt2 c rho dt Ep Em h v : F) (is_dc : bool),
+  gen_wave_step F ii sqrt2 c rho dt Ep Em is_dc h v = wave_mode F ii (1 / sqrt2) c rho dt Ep Em is_dc h v
+  /\ gen_wave_symbol F ii c rho = (wave_symbol F ii c rho 0, wave_symbol F ii c rho 1).
+Proof. intros. split; reflexivity. Qed.
+Print Assumptions C01_code_wave_step_is_model.
+
 (* (i') the symbols of (i) are not only compared with the code at sample modes: Gen/LinOps.v is regenerated on every run by
    harness/translate/linops.py from the source text of exponax/_spectral.py (build_laplace_operator,
    build_gradient_inner_product_operator) and of EVERY `_build_linear_operator` under exponax/stepper (the translator fails if a
